@@ -1,5 +1,6 @@
 from common import *
 from c12 import replay_one
+from l2part import run_l2_part
 
 
 def run(tier, replay=None):
@@ -13,9 +14,14 @@ def run(tier, replay=None):
                       "values are the Go representations fc emits (structs, frt.TupleN, interface + case structs, slices)"]
     rp = NativeReplayer(mod, "frt", hp)
     if replay:
+        j = json.load(open(replay))
+        if j.get("harness", "").startswith("Harness_C10L2_"):
+            return replay_one(ck, run_l2_part(Check("C10", tier, "model_checking"), "C10", "c10", "^$", {"VERIF_L": "2"}, tier), replay, {"VERIF_L": "2"})
         return replay_one(ck, rp, replay, env)
     res = run_symgo(mod, hp, "frt", "^Harness_C10_", steps=2000000, env=env, maxpaths=500000,
                     timeout=200 if tier == "quick" else 1500)
     ck.add_run(res)
     ck.handle_violations(res, rp, env=env, timeout=30)
+    # end-to-end: Folang programs through the real fc, operands from the real slice library
+    run_l2_part(ck, "C10", "c10", "^Harness_C10L2_", {"VERIF_L": "2"}, tier)
     return ck.finish()
